@@ -58,7 +58,7 @@ UNITS = [{
             'requires': ['old(self).wf()'],
             'body_start': 'broadcast use vstd::std_specs::hash::group_hash_axioms; proof { axiom_slots_len(*old(self)); }',
             'inserts': [
-                {'anchor': ['match self.bindings.get(&sym) {', 'self.bindings.get(&sym)'], 'where': 'before',
+                {'anchor': 'let sym: usize = sym.into();', 'where': 'after',
                  'text': 'proof { assert(self.bindings_spec().contains_key(sym) ==> self.bindings_spec()[sym] < self.slots_spec().len()); }'},
                 {'anchor': 'self.bindings.insert(sym, slot);', 'where': 'after',
                  'text': 'proof { assert(self.slots_spec() == old(self).slots_spec().push(VCell::Undefined)); assert(self.bindings_spec() == old(self).bindings_spec().insert(sym, slot)); }'},
